@@ -16,7 +16,23 @@ def check(run, cfg, reports, sampled=()):
     # hypotheses of a sample of obligations (path condition + invariants + axioms) must not prove false
     obs += list(sampled)
     res = solve.discharge(obs, timeout_ms=2000, fast=True) if obs else []
-    bad = [o.name for o, r in zip(obs, res) if r['status'] == 'proved']
+    # Paths that are infeasible only because of the float-order axioms (e.g. `x > inf`) are explored
+    # (branch pruning does not use axioms) and have contradictory hypotheses: that is legitimate.
+    # A contract is vacuous when the axioms alone, or *every* sampled path of a function and case,
+    # prove false.
+    bad = [o.name for o, r in zip(obs, res) if r['status'] == 'proved' and 'axioms-do-not-prove-false' in o.name]
+    groups = {}
+    for o, r in zip(obs, res):
+        if 'hyps-of' in o.name:
+            import re
+            m = re.search(r'\[([^\]]*)\]', o.name)
+            key = (o.func, '[%s]' % m.group(1) if m else '')
+            g = groups.setdefault(key, [0, 0])
+            g[0] += 1
+            g[1] += r['status'] == 'proved'
+    for key, (n, refuted) in groups.items():
+        if n and refuted == n:
+            bad.append('every sampled path of %s%s has contradictory hypotheses' % key)
     covers = {}
     for rep in reports:
         covers[rep.name] = dict(cases=dict(rep.cases), branches_reached=len(rep.covers), paths=rep.paths)
